@@ -5,7 +5,9 @@ driver for the rotation model (engine `rotate`).  One case = `cfg …`, operatio
 
 ```
 cfg <keep> <cyclePeriod> <fileSize> <flushPeriod> <reuse 0|1> <hsize>   → ok   (periods in 1/8 s; resets)
-adv <n> | size <n> | ctl start|run|stop                                  → ok
+adv <n> | ctl start|run|stop | reboot                                    → ok
+recs - | recs . | recs <size>,<size>…    → ok    what the next run's action writes: nothing / write("") / records
+region D53                               → in | out
 trace                                    → the primitives performed, e.g. `A T1 T2 W W S …`
 states                                   → the distinct successive crash states, joined by ` || `
 crash <n>                                → files after a kill before primitive number n
@@ -30,6 +32,7 @@ def showFS (keep : Nat) (fs : FS) : String :=
 def showPrim : Prim → String
   | .write _ => "W" | .sync => "S" | .closeF => "C" | .rename k => "R" ++ toString k
   | .create => "N" | .openA => "A" | .touch k => "T" ++ toString k
+  | .reboot => "X" | .newdir => "D"
 
 def dedup : List String → List String
   | [] => []
@@ -46,32 +49,47 @@ def allStates (keep : Nat) (fs0 : FS) (tr : List Prim) : List String :=
 def parseCtl : String → Option Ctl
   | "start" => some .start | "run" => some .run | "stop" => some .stop | _ => none
 
-def step (st : Option St) (line : String) : Option St × String :=
+def parseBatch (s : String) : Option (Option (List Nat)) :=
+  if s = "-" then some none
+  else if s = "." then some (some [])
+  else ((s.splitOn ",").mapM String.toNat?).map some
+
+structure D where
+  init : St
+  ops : List Op := []     -- reversed
+  cur : St
+
+def D.run (d : D) (op : Op) : D := { d with ops := op :: d.ops, cur := d.cur.step op }
+
+def step (st : Option D) (line : String) : Option D × String :=
   match words line, st with
   | ["cfg", k, cp, fsz, fp, ru, hs], _ =>
     match k.toInt?, cp.toInt?, fsz.toInt?, fp.toInt?, hs.toNat? with
     | some k, some cp, some fsz, some fp, some hs =>
       if ru = "0" ∨ ru = "1" then
-        (some { cfg := Cfg.ofArgs k cp fsz fp (ru == "1") hs }, "ok")
+        (some { init := { cfg := Cfg.ofArgs k cp fsz fp (ru == "1") hs },
+                cur := { cfg := Cfg.ofArgs k cp fsz fp (ru == "1") hs } }, "ok")
       else (st, "bad-op")
     | _, _, _, _, _ => (st, "bad-op")
   | ["adv", d], some s =>
     match d.toNat? with
-    | some n => (some (s.step (.advance n)), "ok")
+    | some n => (some (s.run (.advance n)), "ok")
     | none => (st, "bad-op")
-  | ["size", d], some s =>
-    match d.toNat? with
-    | some n => (some (s.step (.size n)), "ok")
+  | ["recs", b], some s =>
+    match parseBatch b with
+    | some x => (some (s.run (.batch x)), "ok")
     | none => (st, "bad-op")
+  | ["reboot"], some s => (some (s.run .reboot), "ok")
+  | ["region", "D53"], some s => (st, if emptyKill s.init s.ops.reverse then "in" else "out")
   | ["ctl", c], some s =>
     match parseCtl c with
-    | some c => (some (s.step (.ctl c)), "ok")
+    | some c => (some (s.run (.ctl c)), "ok")
     | none => (st, "bad-op")
-  | ["trace"], some s => (st, " ".intercalate (s.trace.map showPrim))
-  | ["states"], some s => (st, " || ".intercalate (dedup (allStates s.cfg.keep s.fs0 s.trace)))
+  | ["trace"], some s => (st, " ".intercalate (s.cur.trace.map showPrim))
+  | ["states"], some s => (st, " || ".intercalate (dedup (allStates s.cur.cfg.keep s.cur.fs0 s.cur.trace)))
   | ["crash", n], some s =>
     match n.toNat? with
-    | some n => (st, showFS s.cfg.keep (s.crashAt n))
+    | some n => (st, showFS s.cur.cfg.keep (s.cur.crashAt n))
     | none => (st, "bad-op")
   | _, _ => (st, "bad-op")
 
